@@ -1,6 +1,8 @@
 import CssVerif.Model.CodecErr
 import CssVerif.Lemmas.CodecChunk
 import CssVerif.Lemmas.CodecInc
+import CssVerif.Lemmas.CodecEnc
+import CssVerif.Lemmas.CodecEncInner
 /-!
 The incremental CSS decoder raises for some chunking iff one-shot decode raises (inner codecs of the model).
 -/
@@ -141,6 +143,122 @@ theorem runAllE_eq (I : Inner) (given : Option Name) (force : Bool) (cs : List (
     have hout := final_step I given force _ _ _ h1
     simp only [stepE, hfs]
     cases errAt (finalEnc given force cs.flatten) cs.flatten true with
+    | true => simp
+    | false => simp [hout]
+
+/-! ## encoder side -/
+
+theorem encErrAt_mono (E : Name) (a b : List Nat) (h : encErrAt E a = true) : encErrAt E (a ++ b) = true := by
+  unfold encErrAt at *
+  cases hl : lookupName E with
+  | none => simp [hl] at h
+  | some c =>
+    simp only [hl] at h ⊢
+    rw [encScan_append]
+    cases h2 : (encScan c.kind a).2 with
+    | true => simp [h2] at h
+    | false => simp
+
+theorem encodeOneShotE_eq (I : InnerEnc) (given : Option Name) (whole : List Nat) :
+    encodeOneShotE I given whole =
+      if encErrAt (finalE given whole) (finalT given whole) then none else some (encodeOneShot I given whole) := by
+  cases given <;> rfl
+
+theorem efinal_state (I : InnerEnc) (given : Option Name) (a em : List Nat) (s : ESt)
+    (h : EInv I given a em s) :
+    (estep I s [] true).1.raised = encErrAt (finalE given a) (finalT given a) := by
+  cases s with
+  | waiting g buf =>
+    obtain ⟨rfl, rfl, rfl⟩ := h
+    cases g with
+    | some g =>
+      simp only [estep, List.append_nil, fix_true, ESt.raised, finalE, finalT]
+      by_cases hs : isSig g = true
+      · simp only [hs, if_true, fixFinal_idem buf g _ true (fix_true buf g) hs]
+      · simp [hs]
+    | none =>
+      simp only [estep, List.append_nil, detU_true, ESt.raised, finalE, finalT]
+  | encoding E c =>
+    obtain ⟨rfl, hT⟩ := h
+    obtain ⟨hE, hTT⟩ := hT []
+    simp only [List.append_nil] at hE hTT
+    simp [estep, ESt.raised, hE, hTT]
+
+theorem eraised_mono (I : InnerEnc) (given : Option Name) (a em : List Nat) (s : ESt)
+    (h : EInv I given a em s) (hr : s.raised = true) (rest : List Nat) :
+    encErrAt (finalE given (a ++ rest)) (finalT given (a ++ rest)) = true := by
+  cases s with
+  | waiting g buf => simp [ESt.raised] at hr
+  | encoding E c =>
+    obtain ⟨_, hT⟩ := h
+    obtain ⟨hE, hTT⟩ := hT rest
+    rw [hE, hTT]
+    exact encErrAt_mono E c rest hr
+
+theorem erunChunksE_some (I : InnerEnc) (s : ESt) (cs : List (List Nat)) (r : ESt × List Nat)
+    (h : erunChunksE I s cs = some r) : r = erunChunks I s cs := by
+  induction cs generalizing s r with
+  | nil => simp [erunChunksE] at h; simp [erunChunks, h]
+  | cons c cs ih =>
+    simp only [erunChunksE, estepE] at h
+    split at h
+    · cases h
+    · rename_i r1 hr1
+      split at hr1
+      · cases hr1
+      · simp only [Option.some.injEq] at hr1
+        subst hr1
+        split at h
+        · cases h
+        · rename_i r2 hr2
+          simp only [Option.some.injEq] at h
+          subst h
+          have := ih _ _ hr2
+          simp [erunChunks, ← this]
+
+theorem erunChunksE_none (I : InnerEnc) (given : Option Name) (cs : List (List Nat)) :
+    ∀ (a em : List Nat) (s : ESt), EInv I given a em s → erunChunksE I s cs = none →
+      encErrAt (finalE given (a ++ cs.flatten)) (finalT given (a ++ cs.flatten)) = true := by
+  induction cs with
+  | nil => intro a em s _ h; simp [erunChunksE] at h
+  | cons c cs ih =>
+    intro a em s hinv h
+    have h1 := estep_inv I given a em c s hinv
+    simp only [erunChunksE, estepE] at h
+    by_cases hr : (estep I s c false).1.raised = true
+    · have := eraised_mono I given (a ++ c) _ _ h1 hr cs.flatten
+      simpa [List.append_assoc] using this
+    · have hr' : (estep I s c false).1.raised = false := by
+        cases hx : (estep I s c false).1.raised with
+        | true => exact absurd hx hr
+        | false => rfl
+      simp only [hr', Bool.false_eq_true, if_false] at h
+      cases h2 : erunChunksE I (estep I s c false).1 cs with
+      | none =>
+        have := ih _ _ _ h1 h2
+        simpa [List.append_assoc] using this
+      | some r' => simp [h2] at h
+
+/-- some call of the incremental encoder raises iff one-shot encode raises; otherwise the same bytes -/
+theorem erunAllE_eq (I : InnerEnc) (given : Option Name) (cs : List (List Nat)) :
+    erunAllE I given cs = encodeOneShotE I given cs.flatten := by
+  have h0 : EInv I given [] [] (.waiting given []) := ⟨rfl, rfl, rfl⟩
+  rw [encodeOneShotE_eq]
+  unfold erunAllE
+  cases hrc : erunChunksE I (.waiting given []) cs with
+  | none =>
+    have := erunChunksE_none I given cs [] [] _ h0 hrc
+    simp only [List.nil_append] at this
+    simp [this]
+  | some r =>
+    have hr := erunChunksE_some I _ cs r hrc
+    have h1 := erunChunks_inv I given cs [] [] _ h0
+    simp only [List.nil_append] at h1
+    rw [← hr] at h1
+    have hfs := efinal_state I given _ _ _ h1
+    have hout := efinal_step I given _ _ _ h1
+    simp only [estepE, hfs]
+    cases encErrAt (finalE given cs.flatten) (finalT given cs.flatten) with
     | true => simp
     | false => simp [hout]
 
